@@ -148,6 +148,12 @@ fn c15_run_one(batch_seed: u64, run_index: u64, out: &mut WorkerOut) -> bool {
     if w.fresh {
         out.stats.inc("fresh_shared_objects");
     }
+    if w.cold {
+        out.stats.inc("cold_first_simulations");
+    }
+    if w.early {
+        out.stats.inc("early_bird_rechecks");
+    }
     for i in 0..sched::N_SITES {
         if r.site_hits[i] > 0 {
             out.stats.add(&format!("site.{}", sched::site_name(i)), r.site_hits[i]);
@@ -281,6 +287,10 @@ fn c15_minimise(replay: &Json) -> Json {
     let mut schedule = report.choices.clone();
     let seed = replay.get("run_seed").and_then(|x| x.as_u64()).unwrap_or(1);
     let mut steps = 0u32;
+    // wall-clock budget (long simulations - thousands of repetitions, 100k-step schedules - cost
+    // a second per re-execution): what is found by then is reported; it still replays exactly
+    let started = std::time::Instant::now();
+    let spent = |limit_s: u64| started.elapsed().as_secs() >= limit_s;
     let try_run = |w: &c15::Workload, list: Vec<u16>| -> Option<(c15::CFinding, Vec<u16>)> {
         match c15::run(w, sched::replay_config(list, enabled)) {
             Ok(o) => o.finding.map(|f| (f, o.report.choices)),
@@ -297,7 +307,7 @@ fn c15_minimise(replay: &Json) -> Json {
     };
     // 1. workload
     let mut progress = true;
-    while progress && steps < 1500 {
+    while progress && steps < 1500 && !spent(60) {
         progress = false;
         let mut cands = c15::shrink_workload(&w);
         cands.sort_by_key(|c| c.weight());
@@ -326,7 +336,7 @@ fn c15_minimise(replay: &Json) -> Json {
                 progress = true;
                 break;
             }
-            if steps >= 1500 {
+            if steps >= 1500 || spent(60) {
                 break;
             }
         }
@@ -350,7 +360,7 @@ fn c15_minimise(replay: &Json) -> Json {
     }
     // 3. fewer context switches: set single choices to 0 (lowest runnable id)
     let mut i = 0;
-    while i < schedule.len() && steps < 4000 {
+    while i < schedule.len() && steps < 4000 && !spent(100) {
         if schedule[i] != 0 {
             let mut cand = schedule.clone();
             cand[i] = 0;
@@ -519,6 +529,10 @@ fn main() {
         harness_error("usage: verifsim_mt check|worker|replay|minimise|selftest ...");
     }
     let args = Args::parse(&argv[1..]);
+    if matches!(argv[0].as_str(), "worker" | "replay" | "minimise" | "selftest") {
+        // before anything else in this process touches the library
+        c15::start_process_early_bird();
+    }
     let code = match argv[0].as_str() {
         "check" => {
             let id = args.positional.first().map(|s| s.as_str()).unwrap_or("");
